@@ -7,3 +7,6 @@ import Woodpile.Model.VouchedTime
 import Woodpile.Proofs.Raffle
 import Woodpile.Proofs.VouchedTime
 import Woodpile.Props.C14
+import Woodpile.Model.NfsVoucher
+import Woodpile.Proofs.NfsVoucher
+import Woodpile.Props.C19
